@@ -8,7 +8,7 @@ import UF.Proofs.RequestRef
   (hypothesis where needed: it answers with a dot-suffix of the hostname).  `net/url` and the PSL
   data themselves are compared in Go by the `assert c17.*` ops of the correspondence check.
 -/
-namespace UF
+namespace UF.H
 open Bytes
 
 /-- For a well-formed hierarchical URL
@@ -291,4 +291,4 @@ example : goodURLParts (lit "https") (lit "www.example.co.uk") (lit ":8080/a?b#c
 /-- The non-hierarchical branch really takes "index of ':' minus one". -/
 example : (extractHostname (lit "stun:example.org")).toOption = some (lit "n") := by decide
 
-end UF
+end UF.H
